@@ -45,6 +45,23 @@ pub fn families() -> Vec<(String, Vec<u8>, Vec<usize>)> {
         b.extend([0xC0, 0x00]);
         f.push((format!("label-len {n}"), b, vec![0, p]));
     }
+    // re-entry: a pointer at P whose target's label ends ON the pointer's own first byte, so that decoding runs
+    // on, in place, through the pointer's second byte (read as a length): the name is legal, the cursor of the
+    // enclosing element still stops at P + 2
+    for t in 1usize..=3 {
+        for l in 1usize..=3 {
+            let mut b = vec![b'a'; t];
+            b.push(l as u8);
+            b.extend(std::iter::repeat(b'x').take(l - 1));
+            let p = b.len();
+            b.push(0xC0);
+            b.push(t as u8);
+            b.extend(std::iter::repeat(b'y').take(t));
+            b.push(0);
+            b.extend([0, 1, 0, 1]);
+            f.push((format!("re-entry t={t} l={l}"), b, vec![p]));
+        }
+    }
     // total name length 253..257 direct; and a leading label + pointer to a 193-byte tail
     for total in 250usize..=258 {
         let x = total - 194;
